@@ -219,3 +219,93 @@ def run(ctx):
     # one path also means later queries see the same stored values: no in-place update of a tensor that may be cached
     from . import c05
     ctx.guard(c05.r05_5)
+
+
+# ------------------------------------------------------------------------------------------------ R03.8
+def _eval_loc_inner(model, s_, e_, mid_, ta_, tb_):
+    """One activation of _Interval._loc_inner on a node [s, e] (split at mid, or a leaf if mid is None) for the query
+    (ta, tb), all times being representative rationals of one *ordering*; children / parent / _split are opaque."""
+    fi = model.func(BI, "_Interval._loc_inner")
+    icls = model.cls(BI, "_Interval")
+    actions = []
+
+    def rec(name):
+        def f(it, a, k, n, f2):
+            actions.append((name, tuple(a[:2])))
+            return ("GEN", name)
+        return Intrinsic(name, f)
+    parent = Obj("parent", attrs={"_loc_inner": rec("parent")})
+    left = Obj("left", attrs={"_loc_inner": rec("left")})
+    right = Obj("right", attrs={"_loc_inner": rec("right")})
+    node = Obj("node", cls=icls, attrs={"_start": Fraction(s_), "_end": Fraction(e_), "_parent": parent,
+                                        "_midway": None if mid_ is None else Fraction(mid_)})
+    if mid_ is not None:
+        node.attrs["_left_child"], node.attrs["_right_child"] = left, right
+
+    def split(it, a, k, n, f2):
+        actions.append(("split", (a[0],)))
+        node.attrs["_midway"] = a[0]
+        node.attrs["_left_child"], node.attrs["_right_child"] = left, right
+        return None
+    node.attrs["_split"] = Intrinsic("_split", split)
+
+    class H(bk.BrownianHooks):
+        def on_yield(self, interp, value, n, f2):
+            return None
+    it = Interp(model, H())
+    out = []
+    try:
+        it.run_generator_body(fi, [node, Fraction(ta_), Fraction(tb_), out], {})
+    except SimRaise as ex:
+        actions.append(("raise", (ex.exc_name,)))
+    return actions, out, node, fi
+
+
+def _loc_spec(s_, e_, mid_, ta, tb):
+    """What one activation must do for the pieces to be an ordered contiguous cover of [ta, tb] by existing nodes."""
+    if ta < s_ or tb > e_:
+        return [("parent", (ta, tb))], False
+    if ta == s_ and tb == e_:
+        return [], True
+    if mid_ is None:
+        if ta == s_:
+            return [("split", (tb,)), ("left", (ta, tb))], False
+        return [("split", (ta,)), ("right", (ta, tb))], False
+    if tb <= mid_:
+        return [("left", (ta, tb))], False
+    if ta >= mid_:
+        return [("right", (ta, tb))], False
+    return [("left", (ta, mid_)), ("right", (mid_, tb))], False
+
+
+def r03_8(ctx):
+    rep, model = ctx.rep, ctx.model
+    rep.rule("R03.8", "tree search, one activation for every ordering of the query end points relative to the node's "
+                      "(start, midpoint, end): exact match appends the node; a query inside one child is delegated "
+                      "unchanged; a straddling query is cut at the midpoint, left part first; a leaf is split at the "
+                      "interior query end point; anything outside goes to the parent unchanged")
+    n = 0
+    for mid_, points in ((4, (-1, 0, 2, 4, 6, 8, 9)), (None, (-1, 0, 3, 5, 8, 9))):
+        for i, ta in enumerate(points):
+            for tb in points[i + 1:]:
+                n += 1
+                actions, out, node, fi = _eval_loc_inner(model, 0, 8, mid_, ta, tb)
+                want, appended = _loc_spec(0, 8, mid_, ta, tb)
+                got = [(a, tuple(int(x) if isinstance(x, Fraction) and x.denominator == 1 else x for x in args))
+                       for a, args in actions]
+                ok = got == want and ((len(out) == 1 and out[0] is node) if appended else not out)
+                kind = "leaf" if mid_ is None else "split node"
+                rep.check(ok, "R03.8", astq.loc(fi), f"{fi.key}::R03.8::{kind}::ta={ta},tb={tb}",
+                          f"{kind} [0, 8]{'' if mid_ is None else ' (midpoint 4)'}, query ({ta}, {tb}): the search does "
+                          f"{got} and appends {len(out)} node(s); an ordered contiguous cover of the query by existing "
+                          f"nodes requires {want}{' and appending the node itself' if appended else ''}", "as required")
+    rep.analysed(model.func(BI, "_Interval._loc_inner"))
+    ctx.floor("R03.8", 30)
+
+
+_run_c03 = run
+
+
+def run(ctx):
+    _run_c03(ctx)
+    ctx.guard(r03_8)
